@@ -165,11 +165,11 @@ theorem inv_lock {s : St} {a : Aid} {s' : St} {o : Outs} (hi : Inv s)
             · exact absurd ⟨hr, hown⟩ hub
             · rfl
           rw [lock_again hown hr]
-          simp only [Mutex.waitFor, hown, if_true]
+          simp only [Mutex.waitFor, if_true]
           constructor <;> grind [upd]
         · rw [lock_queue hown hoa hb]
           have hne : ¬ (some ow = some a) := by simpa using hoa
-          simp only [Mutex.waitFor, hown, hne, if_false]
+          simp only [Mutex.waitFor, Bool.false_eq_true, if_false]
           have hm := markLast_append a .unit s.m.queue 1 false .unit
           simp only [hm]
           constructor
@@ -179,10 +179,8 @@ theorem inv_lock {s : St} {a : Aid} {s' : St} {o : Outs} (hi : Inv s)
           · intro q hqm
             simp only [List.mem_append, List.mem_singleton] at hqm
             rcases hqm with hqm | rfl
-            · have := hq q hqm
-              rw [hown] at this
-              exact this
-            · simp [hoa]
+            · exact hq q hqm
+            · simp [hown, hoa]
           · simp [hfi]
           · simp only [List.map_append, List.map_cons, List.map_nil]
             rw [List.nodup_append]
